@@ -77,7 +77,7 @@ def reset_duplicate_filters():
 
 
 def run(input_text, opts, suffix=".pdb", extra_files=None, keep=False, workname="pipe", out_name="out.pqr",
-        pre_output=None, input_name=None):
+        pre_output=None, input_name=None, on_ready=None):
     """Execute main_driver(parse_args([...opts, input, output])).
 
     opts: list of CLI tokens (e.g. ["--ff=AMBER", "--whitespace"]); tokens containing {dir} are formatted.
@@ -99,11 +99,14 @@ def run(input_text, opts, suffix=".pdb", extra_files=None, keep=False, workname=
     out = r.dir / out_name
     if pre_output is not None:
         out.write_bytes(pre_output)
+        os.utime(out, ns=(10 ** 18, 10 ** 18))
     r.out_path = out
     argv = [o.format(dir=str(r.dir)) for o in opts] + [str(inp), str(out)]
     r.argv = argv
     cap = _capture()
     reset_duplicate_filters()
+    if on_ready is not None:
+        on_ready(out)
     try:
         args = build_main_parser().parse_args(argv)
         r.missed, r.pka_df, r.bio = main_driver(args)
